@@ -1833,6 +1833,24 @@ Section Cyc.
     rewrite (read_cached_noop prog st k Hk Hd Hf). simpl. rewrite Hps. reflexivity.
   Qed.
 
+  (* the read set outlives the evaluation that filled it: only a top-level assignment empties it *)
+  Lemma assign_clears_read_set : forall st o nm v st', set_obs prog false st o nm v = Some st' -> ps st' = [].
+  Proof. intros st o nm v st' H. unfold set_obs in H. simpl in H. inversion H. reflexivity. Qed.
+
+  Lemma read_keeps_read_set : forall st k o nm, ps_mem o nm (ps st) = true ->
+    ps_mem o nm (ps (fst (read_top prog st k))) = true.
+  Proof. intros. eapply ps_mem_pext; [apply read_top_pext|assumption]. Qed.
+
+  (* so a function that reads NOTHING and assigns x is rejected when some earlier evaluation read x and no
+     top-level assignment happened since ("false rejection"), and accepted right after an assignment *)
+  Lemma false_rejection : forall st o nm v, alive st o = true -> ps_mem o nm (ps st) = true ->
+    snd (run_acts prog [AWrite o nm v] st) = false.
+  Proof. intros. apply write_rejected_iff; auto. Qed.
+
+  Lemma no_rejection_on_empty_read_set : forall st o nm v, alive st o = true -> ps st = [] ->
+    snd (run_acts prog [AWrite o nm v] st) = true.
+  Proof. intros st o nm v Hal Hps. simpl. rewrite Hal. unfold set_obs. rewrite Hps. reflexivity. Qed.
+
   (* a rejected assignment leaves the store alone (the ValueError is raised before notify/store) *)
   Lemma rejected_write_atomic : forall st o nm v, set_obs prog true st o nm v = None -> ps_mem o nm (ps st) = true.
   Proof.
